@@ -18,7 +18,10 @@ func init() {
 	})
 }
 
+var releaseBodyFn *ssa.Function
+
 func runC16(c *Ctx) {
+	releaseBodyFn = nil
 	P := c.P
 	Conn := P.Method("connection", "Manager", "Connection")
 	dial := P.Method("connection", "Manager", "dial")
@@ -87,7 +90,7 @@ func runC16(c *Ctx) {
 								return
 							}
 						}
-						c.Check(f == dial, "C16.ready-hb", fnName(f), "write of connection."+fl.Name(), P.Pos(in.Pos()), "dial result fields may only be written by dial")
+						c.Check(onlyFrom(P, f, dial, 0), "C16.ready-hb", fnName(f), "write of connection."+fl.Name(), P.Pos(in.Pos()), "dial result fields may only be written by dial (or a helper only dial calls)")
 					}
 				}
 			})
@@ -122,7 +125,8 @@ func runC16(c *Ctx) {
 		c.Floor("C16.ready-hb/reads", n, 2)
 		// other readers
 		for _, f := range P.PkgFuncs("connection") {
-			if P.InTestFile(f) || f == Conn || f == dial {
+			// helpers called only from Connection are entered by its path analysis above; helpers of dial write, not publish
+			if P.InTestFile(f) || f == Conn || f == dial || onlyFrom(P, f, Conn, 0) || onlyFrom(P, f, dial, 0) {
 				continue
 			}
 			instrs(f, func(in ssa.Instruction) {
@@ -282,30 +286,60 @@ func runC16(c *Ctx) {
 				}
 			}
 		})
-		if retClosure != nil && onceAlloc != nil {
-			outer = retClosure.Fn.(*ssa.Function)
-			calls := callsIn(outer)
-			if len(calls) == 1 && calleeName(calls[0].Common()) == "(*sync.Once).Do" {
-				// receiver is the captured once, argument the captured body
-				rcv := calls[0].Common().Args[0]
-				arg := calls[0].Common().Args[1]
-				rIdx, aIdx := freeVarIndex(outer, rcv), freeVarIndex(outer, arg)
-				if rIdx >= 0 && retClosure.Bindings[rIdx] == ssa.Value(onceAlloc) && aIdx >= 0 {
-					// body closure
-					if bAlloc, ok := retClosure.Bindings[aIdx].(*ssa.Alloc); ok {
-						if v := singleStore(bAlloc); v != nil {
-							if mc, ok := v.(*ssa.MakeClosure); ok {
-								body = mc.Fn.(*ssa.Function)
-							}
-						}
-					} else if mc, ok := retClosure.Bindings[aIdx].(*ssa.MakeClosure); ok {
-						body = mc.Fn.(*ssa.Function)
+		// the function a func-typed value stands for: a literal, or the method behind a bound method value
+		target := func(v ssa.Value) *ssa.Function {
+			if al, ok := v.(*ssa.Alloc); ok {
+				if s := singleStore(al); s != nil {
+					v = s
+				}
+			}
+			mc, ok := v.(*ssa.MakeClosure)
+			if !ok {
+				return nil
+			}
+			fn := mc.Fn.(*ssa.Function)
+			if strings.HasSuffix(fn.Name(), "$bound") {
+				for _, ci := range callsIn(fn) {
+					if m := staticCallee(ci.Common()); m != nil && len(m.Blocks) > 0 {
+						return m
 					}
-					okOuter = body != nil
+				}
+			}
+			return fn
+		}
+		if retClosure != nil {
+			outer = target(retClosure)
+			if outer != nil && outer != retClosure.Fn.(*ssa.Function) {
+				// bound method value (&holder{…}).release: the holder is a fresh object of this call of done and
+				// the method only calls h.once.Do(h.body)
+				_, fresh := retClosure.Bindings[0].(*ssa.Alloc)
+				calls := callsIn(outer)
+				if fresh && len(calls) == 1 && calleeName(calls[0].Common()) == "(*sync.Once).Do" {
+					rcv := calls[0].Common().Args[0]
+					if fa, ok := rcv.(*ssa.FieldAddr); ok && fa.X == ssa.Value(outer.Params[0]) && isNamedStd(deref(fa.Type()), "sync", "Once") {
+						onceAlloc = retClosure.Bindings[0].(*ssa.Alloc)
+						if mc, ok := calls[0].Common().Args[1].(*ssa.MakeClosure); ok {
+							body = target(mc)
+						}
+						okOuter = body != nil
+					}
+				}
+			} else if outer != nil && onceAlloc != nil {
+				calls := callsIn(outer)
+				if len(calls) == 1 && calleeName(calls[0].Common()) == "(*sync.Once).Do" {
+					// receiver is the captured once, argument the captured body
+					rcv := calls[0].Common().Args[0]
+					arg := calls[0].Common().Args[1]
+					rIdx, aIdx := freeVarIndex(outer, rcv), freeVarIndex(outer, arg)
+					if rIdx >= 0 && retClosure.Bindings[rIdx] == ssa.Value(onceAlloc) && aIdx >= 0 {
+						body = target(retClosure.Bindings[aIdx])
+						okOuter = body != nil
+					}
 				}
 			}
 		}
 		c.Check(okOuter, "C16.release", fnName(done), "per-holder sync.Once guards the release body", P.Pos(done.Pos()), fmt.Sprintf("once allocated in done=%v, returned function is once.Do(body)=%v", onceAlloc != nil, okOuter))
+		releaseBodyFn = body
 		if body != nil {
 			c.Analysed(fnName(body))
 			for _, ref := range []int64{0, 1} {
@@ -374,7 +408,7 @@ func runC16(c *Ctx) {
 					c.Check(f == remove, "C16.close-owner", fnName(f), "ClientConn.Close call", P.Pos(ci.Pos()), "connections may only be closed by Manager.remove")
 				}
 				if staticCallee(ci.Common()) == remove {
-					okCaller := f == dial || (f.Parent() == done)
+					okCaller := onlyFrom(P, f, dial, 0) || (f.Parent() == done) || (releaseBodyFn != nil && f == releaseBodyFn)
 					c.Check(okCaller, "C16.close-owner", fnName(f), "caller of remove", P.Pos(ci.Pos()), "remove may only be reached from dial (failure) and the release body (last holder)")
 				}
 			}
